@@ -40,10 +40,10 @@ class C18(CtxCheck):
             out.append(base + [("op", 0, ("add", "Bd", False, "v:c0:Bd:0", "m")), ("op", 0, ("addf", "ABd", "sync", "f:c0:ABd:0", "m"))])
         return out
 
-    def units(self, tier: str, seed: int) -> list:
+    def _units0(self, tier: str, seed: int) -> list:
         return super().units(tier, seed) + [{"reuse": True}]
 
-    def work(self, unit: dict, tier: str) -> dict:
+    def _work0(self, unit: dict, tier: str) -> dict:
         if unit.get("reuse"):
             return self.reuse_unit()
         return super().work(unit, tier)
@@ -55,7 +55,7 @@ class C18(CtxCheck):
 
         return summary_for("context", "C18")
 
-    def replay(self, rec: dict):  # type: ignore[no-untyped-def]
+    def _replay0(self, rec: dict):  # type: ignore[no-untyped-def]
         if rec.get("program", {}).get("reuse"):
             s = self.reuse_unit()
             for v in s["violations"]:
@@ -67,6 +67,29 @@ class C18(CtxCheck):
             print("no violation on this tree")
             return 0
         return super().replay(rec)
+
+    def units(self, tier: str, seed: int) -> list:
+        from .c04race import two_type_units
+
+        return self._units0(tier, seed) + two_type_units(tier)
+
+    def work(self, unit: dict, tier: str) -> dict:
+        if "race" in unit:
+            from .c04race import RACE
+
+            s = RACE.work(unit, tier)
+            # only the clause that belongs to this property
+            s["violations"] = [v for v in s["violations"] if "events" in v["keys"]]
+            s["keyhist"] = {k: n for k, n in s.get("keyhist", {}).items() if k == "events"}
+            return s
+        return self._work0(unit, tier)
+
+    def replay(self, rec: dict):  # type: ignore[no-untyped-def]
+        if "race" in rec.get("program", {}):
+            from .c04race import RACE
+
+            return RACE.replay(rec)
+        return self._replay0(rec)
 
     def enabled(self, u: Universe) -> list[tuple]:
         ops: list[tuple] = []
